@@ -175,6 +175,11 @@ def run (cases : List CaseBlock) (args : List String) : IO Unit := do
       let mut sigs : List String := [s!"c{p.input.mc.length}s{p.input.ms.length}"]
       let mut nev := 0
       let mut models : List (ObsRun × SimOut OState × Int) := []
+      if args.contains "machines" then
+        for (m, i) in p.input.mc.zipIdx do
+          IO.println s!"client machine {i}: {repr m}"
+        for (m, i) in p.input.ms.zipIdx do
+          IO.println s!"server machine {i}: {repr m}"
       for (r, orc) in p.runs do
         let (o, t0) := Mb.Sim.modelRun replayOracle modelBudget p.input r.run orc
         let mres := o.res t0
